@@ -76,12 +76,16 @@ class HTMLFormatter(BaseFormatter):
                         + "</pre>"
                     )
 
-        m = _EXP_PATTERN.match(mstr)
         _exp_formatter = lambda s: f"<sup>{s}</sup>"
 
-        if m:
-            exp = int(m.group(2) + m.group(3))
-            mstr = _EXP_PATTERN.sub(r"\1×10" + _exp_formatter(exp), mstr)
+        if _EXP_PATTERN.match(mstr):
+            # each number carries its own exponent (the two parts of a complex value)
+            mstr = _EXP_PATTERN.sub(
+                lambda m: m.group(1)
+                + "×10"
+                + _exp_formatter(int(m.group(2) + m.group(3))),
+                mstr,
+            )
 
         return mstr
 
